@@ -2,6 +2,7 @@ import Driver.Common
 import AslModel.Rc
 import Gen.ShapesGen
 import AslModel.RcCompile
+import AslModel.RcNest
 /-! Model driver for C12: compiles a scenario's thread programs into atomic steps using the *recorded*
 operation shapes (`Gen/ShapesGen.lean`), enumerates all interleavings in the same depth-first order as
 the scheduler harness and prints the same summary line. -/
@@ -102,9 +103,58 @@ def scen (kind : String) (lim : Nat) (progs : List String) : String :=
       let c := scenCfg k (progs.map splitOps)
       mk c k.counters (c.thrs.all wfThr)
 
+/-! ### handles stored inside shared objects: `nest <kind> <descr> <roots> <ops>` -/
+open AslModel.RcNest in
+def parseNats (s sep : String) : Option (List Nat) :=
+  if s == "-" then some [] else (s.splitOn sep).mapM (·.toNat?)
+
+open AslModel.RcNest in
+def parsePath (s : String) : Option Path :=
+  match s.splitOn "." with
+  | r :: es =>
+    if r.startsWith "r" then
+      match (r.drop 1).toString.toNat?, es.mapM (·.toNat?) with
+      | some i, some l => some ⟨i, l⟩
+      | _, _ => none
+    else none
+  | [] => none
+
+open AslModel.RcNest in
+def parseOp (s : String) : Option Op :=
+  if s == "x" then some Op.drop else
+  match s.splitOn "=" with
+  | [a, b] => match parsePath a, parsePath b with
+    | some d, some s => some (Op.assign d s)
+    | _, _ => none
+  | _ => none
+
+/-- the order of the assignment, as recorded from the current library for this handle type -/
+def kindAcquiresFirst (k : Kind) : Bool :=
+  let kinds (evs : List Ev) : List Bool := evs.filterMap fun e => match e with
+    | Ev.inc _ _ => some true
+    | Ev.dec _ _ => some false
+    | Ev.free _ _ => some false
+    | Ev.unknown => none
+  AslModel.RcNest.incsFirst (kinds k.assignDiffLast) && AslModel.RcNest.incsFirst (kinds k.assignDiff)
+
+open AslModel.RcNest in
+def nest (kind descr roots ops : String) : String :=
+  match findKind kind, (descr.splitOn "/").mapM (parseNats · ","), parseNats roots ",",
+        (if ops == "-" then some [] else (ops.splitOn ";").mapM parseOp) with
+  | some k, some d, some r, some os =>
+    if !wfDescr d r then "bad-op" else
+    let h := runOps (kindAcquiresFirst k) (build d r) os
+    let fr (h : Heap) : String := commaList ((List.range d.length).map fun b => if aliveAt h b then 0 else 1)
+    let hEnd := (List.range h.roots.length).foldl (fun h _ => dropRoot h) h
+    if h.bad || hEnd.bad then "MODEL-BAD: released storage is used"
+    else if !AslModel.RcNest.invB h [] (d.length + 1) then "MODEL-VIOLATION(inv)"
+    else s!"frees={fr h} end={fr hEnd}"
+  | _, _, _, _ => "bad-op"
+
 def step (_ : Unit) (ts : List String) : Unit × String :=
   match ts with
   | ["scen", kind, lim, progs] => ((), scen kind (lim.toNat?.getD 0) (progs.splitOn "|"))
+  | ["nest", kind, descr, roots, ops] => ((), nest kind descr roots ops)
   | ["stress", _, _, _] => ((), "ok")   -- what the theorems say a free-running contention run must end with
   | _ => ((), "bad-op")
 
